@@ -547,6 +547,7 @@ impl<R: Read, TSpec> TagIterator<R, TSpec>
     fn unknown_masters_ended_by(&self, tag_id: u64) -> Option<usize> {
         let mut index = None;
         for (i, open_tag) in self.tag_stack.iter().enumerate().rev() {
+            #[cfg(feature = "verif-hooks")] crate::verif::tick();
             if open_tag.size != Unknown {
                 break;
             }
